@@ -161,7 +161,7 @@ pub fn cases(tier: &str, seed: u64) -> Vec<Case> {
             match r.below(5) {
                 0 => r.bytes(l),
                 1 => { let mut b = rand_string(&mut r, l).into_bytes(); if !b.is_empty() && r.chance(1, 3) { let i = r.below(b.len() as u64) as usize; b[i] = 0xFF; } b }
-                _ => { let pool = ["a", "b", "a=", "a=1", "b=2", "=x", "a=b=c", "k", ";", "a;b=1", "é=ü", "A", "A=2", "K=v", "key=first", "KEY=other", "Key", "flag`", "`", "a`=b", " a=1", "a =2", "a= 3", "\ta=4", "a\u{a0}=5", " ", " =6", "b=1; a=2;a =3", "x;; y=1"]; let mut s = r.pick(&pool).to_string(); if r.chance(1, 3) { s.push_str(&rand_string(&mut r, 3)); } s.into_bytes() }
+                _ => { let pool = ["a", "b", "a=", "a=1", "b=2", "=x", "a=b=c", "k", ";", "a;b=1", "é=ü", "A", "A=2", "K=v", "key=first", "KEY=other", "Key", "flag`", "`", "a`=b", " a=1", "a =2", "a= 3", "\ta=4", "a\u{a0}=5", " ", " =6", "b=1; a=2;a =3", "x;; y=1", "k=1;k=2", "flag;flag=1", "e=;e=full", "v=0.1;p=1;v=dup"]; let mut s = r.pick(&pool).to_string(); if r.chance(1, 3) { s.push_str(&rand_string(&mut r, 3)); } s.into_bytes() }
             }
         }).collect() };
         let t = txt_of(&strings);
